@@ -118,8 +118,8 @@ func c07Sels() []c07Sel {
 	return []c07Sel{
 		{sel: "select key, value, int(value) as n, float(value) as f, upper(value) as u, is_float(value) as b, key ^= 'a' as p where true",
 			names: []string{"key", "value", "n", "f", "u", "b", "p"}, cols: []int{0, 1, 2, 3, 4, 5, 6}, kind: "num"},
-		{sel: "select key, value, upper(value) as u, is_int(value) as b, key ^= 'a' as p, strlen(value) as l where true",
-			names: []string{"key", "value", "u", "b", "p", "l"}, cols: []int{0, 1, 2, 3, 4, 5}, kind: "text"},
+		{sel: "select key, value, upper(value) as u, is_int(value) as b, key ^= 'a' as p, strlen(value) as l, len(split(value, 'a')) as ln where true",
+			names: []string{"key", "value", "u", "b", "p", "l", "ln"}, cols: []int{0, 1, 2, 3, 4, 5, 6}, kind: "text"},
 		{sel: "select substr(key, 0, 1) as g, sum(int(value)) as s, count(1) as c, sum(float(value)) as sf, sum(value) as sv, min(value) as mv where true group by g",
 			names: []string{"g", "s", "c", "sf", "sv", "mv"}, cols: []int{0, 1, 2, 3, 4, 5}, kind: "num", aggr: true},
 		{sel: "select * where key != 'zz'", names: []string{"key", "value"}, cols: []int{0, 1}, kind: "text"},
